@@ -14,7 +14,7 @@ import (
 func init() {
 	register(Property{
 		ID:          "C08",
-		Explanation: "Decided statically: R1 the skip predicate (anchor: the function whose result guards the early return of the per-package function) returns either the constant 'changed' or `previous.Sum(k) != current.Sum(k)` for the same key k it was asked about, with previous = the loaded gengo.sum and current = the universe's load-time sums, and that comparison is reached only when Force is off and both files exist; the early return is taken only on its 'unchanged' answer for the package being executed; R2 the only dirhash.HashDir call hashes the package's own directory with Hash1 and its result is stored under the same package's path, nothing else writes the sums, and sums are computed in Load (before Execute); R3 every error return of sumfile.Load returns a nil file and Execute stores that result unconditionally (missing/unreadable gengo.sum => nothing is skipped); R4 what is saved is the universe's load-time file, only its Dir is adopted from the loaded one, and Load/Save use the same file name constant; R5 file format - the writer emits key, one space, value, newline for every key of the sorted key list; the reader splits lines, then whitespace fields, takes fields 0 and 1 under a length guard (reader and writer agree). C02.R5 covers 'a failing run or a crash does not update the sums'. R4 also: Save has no path that returns without an error before the sorted sums were written. R2 also: outside pkg/sumfile nothing deletes from, clears, copies into or replaces the table of recorded sums. R3 also: once reading gengo.sum failed no return hands out a file; R6 every GeneratorArgs value the library builds from another one carries every field (Force, All ...). R7/R8: a directory is recorded as generated only when it was (C02.R4: a failing or interrupted stage fails Execute before the save; C06.R1: a processed package had every enabled type dispatched). NOT decided: hash collisions; convergence of repeated runs on unchanged input (behaviour over histories; generated files are themselves hashed).",
+		Explanation: "Decided statically: R1 the skip predicate (anchor: the function whose result guards the early return of the per-package function) returns either the constant 'changed' or `previous.Sum(k) != current.Sum(k)` for the same key k it was asked about, with previous = the loaded gengo.sum and current = the universe's load-time sums, and that comparison is reached only when Force is off and both files exist; the early return is taken only on its 'unchanged' answer for the package being executed; R2 the only dirhash.HashDir call hashes the package's own directory with Hash1 and its result is stored under the same package's path, nothing else writes the sums, and sums are computed in Load (before Execute); R3 every error return of sumfile.Load returns a nil file and Execute stores that result unconditionally (missing/unreadable gengo.sum => nothing is skipped); R4 what is saved is the universe's load-time file, only its Dir is adopted from the loaded one, and Load/Save use the same file name constant; R5 file format - the writer emits key, one space, value, newline for every key of the sorted key list; the reader splits lines, then whitespace fields, takes fields 0 and 1 under a length guard (reader and writer agree). C02.R5 covers 'a failing run or a crash does not update the sums'. R4 also: Save has no path that returns without an error before the sorted sums were written. R2 also: outside pkg/sumfile nothing deletes from, clears, copies into or replaces the table of recorded sums. R3 also: once reading gengo.sum failed no return hands out a file; R6 every GeneratorArgs value the library builds from another one carries every field (Force, All ...). R7/R8: a directory is recorded as generated only when it was (C02.R4: a failing or interrupted stage fails Execute before the save; C06.R1: a processed package had every enabled type dispatched). R9 the sum file is not part of the directory hash it records (the hash function handed to HashDir drops the file named like the sum file, and nothing else) - a genuine defect of the pinned tree, repaired (9c28816). NOT decided: hash collisions; convergence of repeated runs on unchanged input beyond the necessary condition R9 (behaviour over histories; generated files are themselves hashed).",
 		Assumptions: append([]string{"dirhash.HashDir(dir, \"\", Hash1) changes whenever a file of the directory is created, edited or deleted (third-party, trusted)"}, commonAssumptions...),
 		Run:         runC08,
 	})
